@@ -154,7 +154,7 @@ def _split():
     # which the trickle-down reaches grandchildren of both children of the root
     # (n = 17: the first size at which the trickle-down from a max-level node reaches a
     # grandchild that has children of its own; measured 5 min, 9 GB per instance)
-    for n, t in ((6, QUICK), (7, QUICK), (8, THOROUGH), (9, THOROUGH), (15, THOROUGH), (16, THOROUGH), (17, QUICK), (18, THOROUGH)):
+    for n, t in ((6, QUICK), (7, QUICK), (8, THOROUGH), (9, THOROUGH), (15, THOROUGH), (16, THOROUGH), (17, THOROUGH), (18, THOROUGH), (20, THOROUGH)):
         for op in ("pop_lo", "pop_hi", "pop_lo_if"):
             if n >= 15 and op == "pop_lo_if":
                 continue
@@ -166,7 +166,7 @@ def _split():
         step("pop_hi", "pq", n, "inv", "or", {"C01": t, "C06": t}, tables="id", cost=10 * n)
     # two min levels crossed (C02's "sizes >= 16"): position split at n = 15, 16
     for n in (15, 16):
-        for op, grow, keys in (("push", 1, (n,)), ("change_priority", 0, (0, 7, n - 1)), ("remove", 0, (0, 3))):
+        for op, grow, keys in (("push", 1, (n,)), ("change_priority", 0, (0, 1, 2, 7, n - 1)), ("remove", 0, (0, 3))):
             for k in keys:
                 # a new element at slot 15 / 16 rises across two min (or max) levels: 45 s
                 step(op, "dq", n, "inv", "or", {"C02": QUICK if op == "push" else THOROUGH}, tables=f"idk{k}", grow=grow,
